@@ -41,3 +41,22 @@ _BROKER = {
 for _k, _t in _BROKER.items():
     CLAIMS[_k] = dict(category='exploration', ref='5 Core E, 8 ' + _k, text=_BROKER_TEXT % _t,
                       technique="Lean 4 executable model + reference specification, differential correspondence to the real broker; proofs in progress")
+
+CLAIMS['C19'] = dict(category='proof', ref='8 C19',
+    text="Lean theorems over the regenerated deadline expression and constants: for every keep-alive K>0 the read deadline d(K) satisfies "
+         "K < d(K) <= 1.5K (C19_deadline_window), a CONNECT keep-alive of 0 still yields a positive effective value (C19_effective_pos), "
+         "and on the receiver's timed state machine (deadline re-armed at every read) a client whose packets arrive less than K apart is "
+         "never timed out whatever the read delays (C19_active_never_dropped) while a silent one is timed out at most 1.5K after the "
+         "pending read was armed (C19_silent_dropped); PINGREQ is answered by exactly one PINGRESP (C19_pingreq_pingresp); the source "
+         "still has the shape the model assumes (C19_source_shape, regenerated). Tied to the real broker by timed scenarios (K=1,2 s: "
+         "silent from start, pinging, publishing, interval above the deadline) with a will witness. PARTIAL: real time, timers and "
+         "scheduler latency are trusted, not modelled.")
+
+_CLIENT_TEXT = ("Sequential Lean model of the client role (Connect, publish/subscribe/unsubscribe/ping with their completion wrappers, "
+                "processIncoming as a client) tied to the real service.Client by differential runs against a scripted TCP peer (PINGREQ "
+                "barrier from the peer; the ack-before-registration interleaving is forced through the verif ack-window hook), and "
+                "compared event by event with a reference client written from MQTT 3.1.1 and the property text. %s")
+CLAIMS['C12'] = dict(category='exploration', ref='8 C12', text=_CLIENT_TEXT % "Theorems: under construction. Known findings E5 (ack processed before registration is lost), single ping slot, replayed on every run.",
+                     technique="Lean 4 executable model + reference specification, differential correspondence with forced interleaving; proofs in progress")
+CLAIMS['C20'] = dict(category='exploration', ref='8 C20', text=_CLIENT_TEXT % "Theorems: under construction. Known finding E9 (callback invoked once per matching filter of one request) replayed on every run.",
+                     technique="Lean 4 executable model + reference specification, differential correspondence; proofs in progress")
